@@ -22,7 +22,7 @@ RULE = (
     "Hypothesis draws signatures of 1..5 array-annotated parameters (+ return annotation half of the time) from the dim "
     "grammar (symbolic axes only over names plainly bound by an earlier parameter), shapes derived against an evolving model "
     "context and then 0-2 single-axis changes applied to a non-first argument (cross-argument conflicts); every case is executed for the identity order and up to 2 other valid permutations x "
-    "{positional, keyword, mixed} x {typeguard, beartype} x {jaxtyped(typechecker=..), old jaxtyped(checker(f))} plus a jaxtyped "
+    "{positional, keyword, mixed; with a positional-only prefix / keyword-only suffix of 0..2 parameters} x {typeguard, beartype} x {jaxtyped(typechecker=..), old jaxtyped(checker(f))} plus a jaxtyped "
     "dataclass per checker (flat, and split into a jaxtyped base class and a jaxtyped subclass). Non-trivial = >=2 parameters sharing a name or *name AND (unsatisfiable only through a cross-argument "
     "conflict -- every argument alone matches -- or satisfiable with a '#'/variadic name shared between arguments); distinct by "
     "(specs, shapes)."
@@ -55,12 +55,15 @@ def classify(case):
 
 
 def run_variant(case, order, ck, sp, style, fn_cache):
+    # parameter kinds by position (positional-only prefix / keyword-only suffix), a function of the case
+    n = len(order)
+    kinds = gc.position_kinds(n, case.get("npo", 0), case.get("nko", 0))
     key = (tuple(order), ck, sp)
     if key not in fn_cache:
-        fn_cache[key] = gc.build_function(case, order, ck, sp)
+        fn_cache[key] = gc.build_function(case, order, ck, sp, kinds=kinds)
     fn, ns, _ = fn_cache[key]
     ns["__ret"][0] = np.zeros(tuple(case["ret"]["shape"])) if case["ret"] else None
-    args, kwargs = gc.call_args(case, order, style)
+    args, kwargs = gc.call_args(case, order, style, kinds=kinds)
     try:
         fn(*args, **kwargs)
         return "ok"
@@ -143,6 +146,8 @@ def run(ctx):
     @given(st.data())
     def cases(data):
         case = data.draw(gc.call_case(), label="case")
+        case["npo"] = data.draw(st.sampled_from([0, 0, 1, 2]))
+        case["nko"] = data.draw(st.sampled_from([0, 0, 1, 2]))
         vo = gc.valid_orders(case)
         extra = []
         if len(vo) > 1:
